@@ -4,6 +4,8 @@ go 1.21
 
 require (
 	github.com/json-iterator/go v1.1.11
+	github.com/modern-go/concurrent v0.0.0-20180228061459-e0a39a4cb421
+	github.com/modern-go/reflect2 v1.0.1
 	github.com/paulmach/orb v0.1.3
 	github.com/paulmach/osm v0.0.0
 	golang.org/x/time v0.0.0-20190921001708-c4c64cad1fd0
@@ -12,7 +14,6 @@ require (
 
 require (
 	github.com/datadog/czlib v0.0.0-20160811164712-4bc9a24e37f2 // indirect
-	github.com/modern-go/concurrent v0.0.0-20180228061459-e0a39a4cb421 // indirect
 	github.com/paulmach/protoscan v0.2.1 // indirect
 )
 
